@@ -32,6 +32,7 @@ type FuncSpec struct {
 	Header     string
 	Props      []string
 	Requires   []*Clause
+	Defines    []*Clause // ghost definitions: assumed at entry, not checked at call sites
 	Ensures    []*Clause
 	Canaries   []*Clause // ensures-clauses that must FAIL
 	Modifies   []*Expr
@@ -40,6 +41,7 @@ type FuncSpec struct {
 	Loops      map[int]*LoopSpec
 	Flags      map[string]string
 	ParamNames []string
+	ParamTypes []string
 	ResNames   []string
 	Extern     bool
 	GhostSets  [][2]*Expr // on return: ghost location := value
@@ -93,7 +95,7 @@ func NewSpecDB() *SpecDB {
 
 var clauseKeywords = map[string]bool{
 	"property": true, "pure": true, "axiom": true, "ghost": true, "global": true, "func": true, "extern": true,
-	"fieldspec": true, "ghostset": true, "requires": true, "ensures": true, "modifies": true, "loop": true, "canary": true, "flag": true,
+	"fieldspec": true, "ghostset": true, "define": true, "requires": true, "ensures": true, "modifies": true, "loop": true, "canary": true, "flag": true,
 	"inline": true, "trusted": true, "assume": true,
 }
 
@@ -358,11 +360,14 @@ func (db *SpecDB) LoadFile(file string, defaultPkg string) error {
 			}
 			if recvName != "" {
 				fs.ParamNames = append(fs.ParamNames, recvName)
+				fs.ParamTypes = append(fs.ParamTypes, recvType)
 			} else if recvType != "" {
 				fs.ParamNames = append(fs.ParamNames, "_recv")
+				fs.ParamTypes = append(fs.ParamTypes, recvType)
 			}
 			for _, p := range parseParamList(hdr[op+1 : cl]) {
 				fs.ParamNames = append(fs.ParamNames, p.Name)
+				fs.ParamTypes = append(fs.ParamTypes, p.Type)
 			}
 			resTxt := strings.TrimSpace(hdr[cl+1:])
 			if strings.HasPrefix(resTxt, "(") {
@@ -382,7 +387,7 @@ func (db *SpecDB) LoadFile(file string, defaultPkg string) error {
 			}
 			db.Funcs[key] = fs
 			cur = fs
-		case "requires", "ensures", "canary":
+		case "requires", "ensures", "canary", "define":
 			if cur == nil {
 				return errf(rc, "%s outside a func", word)
 			}
@@ -394,6 +399,8 @@ func (db *SpecDB) LoadFile(file string, defaultPkg string) error {
 				return err
 			}
 			switch word {
+			case "define":
+				cur.Defines = append(cur.Defines, c)
 			case "requires":
 				cur.Requires = append(cur.Requires, c)
 			case "ensures":
